@@ -81,6 +81,13 @@ fn alphabet(n: usize, tier: Tier) -> Vec<Dev> {
             true
         }));
     }
+    // (`repr(C, u8)` cannot be copied to a field-less enum: rustc rejects the combination there)
+    for r in ["align(4), u8", "u8;align(2)", "align(2);i8"] {
+        d.push(dev(format!("repr({})", r.replace(';', ")] #[repr(")), &["repr"], move |s| {
+            s.repr = Some(r.to_string());
+            true
+        }));
+    }
     d.push(dev("generic<T>", &["gen", "kind0"], |s| {
         s.generics = vec![Generic::Type { name: "T".into(), bounds: "".into() }];
         s.variants[0].kind = Kind::Tuple(vec![FieldTy::T]);
@@ -145,10 +152,7 @@ fn in_domain(s: &EnumSpec) -> bool {
         Some(d) => d,
         None => return false,
     };
-    let (lo, hi) = match &s.repr {
-        Some(r) => repr_range(r),
-        None => (isize::MIN as i128, isize::MAX as i128),
-    };
+    let (lo, hi) = if super::c06::has_int_repr(s) { repr_range(&super::c06::repr_of(s)) } else { (isize::MIN as i128, isize::MAX as i128) };
     if ds.iter().any(|d| *d < lo || *d > hi) {
         return false;
     }
@@ -160,10 +164,10 @@ fn in_domain(s: &EnumSpec) -> bool {
     }
     let has_data = s.variants.iter().any(|v| !v.kind.is_unit());
     let has_explicit = s.variants.iter().any(|v| v.disc.is_some());
-    if has_data && has_explicit && s.repr.is_none() {
+    if has_data && has_explicit && !super::c06::has_int_repr(s) {
         return false;
     }
-    if s.repr.is_none() && s.variants.iter().any(|v| v.disc.as_deref().map(|d| d.contains('K')).unwrap_or(false)) {
+    if !super::c06::has_int_repr(s) && s.variants.iter().any(|v| v.disc.as_deref().map(|d| d.contains('K')).unwrap_or(false)) {
         return false;
     }
     true
@@ -245,7 +249,7 @@ pub fn render(spec: &EnumSpec) -> String {
     let dn = dname(spec);
     let emits_trait = matches!(dvis(spec).as_deref(), None | Some("pub"));
     let mut inner = String::new();
-    let r = spec.repr.clone();
+    let r = if super::c06::has_int_repr(spec) { Some(super::c06::repr_of(spec)) } else { None };
     for x in &spec.variants {
         if let Some(d) = &x.disc {
             for tok in d.split(|c: char| !c.is_alphanumeric()) {
@@ -260,7 +264,9 @@ pub fn render(spec: &EnumSpec) -> String {
     o.push_str(&format!("type EC = inner::{}{};\ntype DC = inner::{};\n", spec.name, spec.generics_inst(), dn));
     // hand-written reference enum with the same repr and discriminants
     if let Some(r) = &spec.repr {
-        o.push_str(&format!("#[repr({})]\n", r));
+        for part in r.split(';') {
+            o.push_str(&format!("#[repr({})]\n", part.trim()));
+        }
     }
     o.push_str("#[derive(Clone, Copy)]\nenum RefD {\n");
     for x in &spec.variants {
